@@ -12,6 +12,7 @@ Core Lean only.
 -/
 import ChibiVerif.Model.Layout
 import ChibiVerif.Spec.LayoutSpec
+import ChibiVerif.Lemmas.LayoutTotal
 
 set_option linter.unusedSimpArgs false
 
@@ -480,15 +481,7 @@ theorem uMemInScope_of_regions {packed : Bool} {ms : List SMem}
 
 /-! ### whole types (nested aggregates, arrays, pointers) -/
 
-/-- declared types a bit-field may have (C11 6.7.2.1p5 + the integer types gcc and chibicc both accept) -/
-def isBitfieldBase : Ty → Bool
-  | .prim t => t == .bool || t == .char || t == .uchar || t == .short || t == .ushort || t == .int || t == .uint ||
-               t == .long || t == .ulong
-  | _ => false
-
-def alignedOk : Option Int → Bool
-  | none => true
-  | some n => decide (0 < n)
+theorem isPow2le28_eq (n : Int) : isPow2le28 n = pow2le28 n := rfl
 
 mutual
   /-- well-formed type description (C11 constraints on bit-fields, non-negative numbers); with `r = true` also:
@@ -523,29 +516,50 @@ theorem bitfieldBase_props {ty : Ty} (h : isBitfieldBase ty = true) :
     0 < (specSizeAlign ty).1 ∧ (specSizeAlign ty).2 = (specSizeAlign ty).1 := by
   cases ty with
   | prim t => cases t <;> first | (simp [isBitfieldBase] at h; done) | decide
+  | enum => decide
   | _ => simp [isBitfieldBase] at h
+
+/-- the declared types the specification allows for a bit-field are exactly those type.c `is_integer` accepts (the guard of
+    struct_members' diagnostic "bit-field has non-integer type") -/
+theorem isBitfieldBase_eq_isInteger (ty : Ty) : isBitfieldBase ty = ty.isInteger := by
+  cases ty with
+  | prim t => cases t <;> decide
+  | enum => decide
+  | ptr => decide
+  | arr _ _ => exact (by decide : false = integerKinds.contains "TY_ARRAY")
+  | flex _ => exact (by decide : false = integerKinds.contains "TY_ARRAY")
+  | struct _ _ _ => exact (by decide : false = integerKinds.contains "TY_STRUCT")
+  | union _ _ _ => exact (by decide : false = integerKinds.contains "TY_UNION")
 
 
 theorem specSizeAlign_struct (p : Bool) (al : Option Int) (ms : Members) :
     specSizeAlign (.struct p al ms) =
-      ((specStruct p (al.map Int.toNat) (specMembers ms)).size, (specStruct p (al.map Int.toNat) (specMembers ms)).align) := by
+      ((specStruct p (specAligned al) (specMembers ms)).size, (specStruct p (specAligned al) (specMembers ms)).align) := by
   simp [specSizeAlign]
 
 theorem specSizeAlign_union (p : Bool) (al : Option Int) (ms : Members) :
     specSizeAlign (.union p al ms) =
-      ((specUnion p (al.map Int.toNat) (specMembers ms)).size, (specUnion p (al.map Int.toNat) (specMembers ms)).align) := by
+      ((specUnion p (specAligned al) (specMembers ms)).size, (specUnion p (specAligned al) (specMembers ms)).align) := by
   simp [specSizeAlign]
 
 theorem aligned_cast {al : Option Int} (h : alignedOk al = true) :
-    (al.getD ((STRUCT_INIT_ALIGN : Nat) : Int)) = (((al.map Int.toNat).getD STRUCT_INIT_ALIGN : Nat) : Int) ∧
-    (∀ n, al.map Int.toNat = some n → 0 < n) := by
+    alignAttr ((STRUCT_INIT_ALIGN : Nat) : Int) al = .ok ((((specAligned al).getD STRUCT_INIT_ALIGN : Nat)) : Int) ∧
+    (∀ n, specAligned al = some n → 0 < n) := by
+  rw [alignAttr_eq]
   cases al with
-  | none => simp
+  | none => simp [specAligned]
   | some n =>
-    simp only [alignedOk, decide_eq_true_eq] at h
-    simp only [Option.getD_some, Option.map_some, Option.some.injEq]
-    refine ⟨by omega, ?_⟩
-    intro m hm; omega
+    simp only [alignedOk, isPow2le28_eq, Bool.or_eq_true, beq_iff_eq] at h
+    by_cases h0 : n = 0
+    · subst h0; simp [specAligned]
+    · have hp : pow2le28 n = true := by
+        rcases h with h | h
+        · exact absurd h h0
+        · exact h
+      have hpos := pow2le28_pos hp
+      simp only [h0, hp, if_false, if_true, specAligned, Option.getD_some, Option.some.injEq, Except.ok.injEq]
+      refine ⟨by omega, ?_⟩
+      intro m hm; omega
 
 mutual
   theorem ty_eq : ∀ (t : Ty), t.ok true = true →
@@ -575,12 +589,12 @@ mutual
       obtain ⟨⟨hms, hal⟩, hB, hA⟩ := h
       have ih := ms_eq ms hms
       have hc := aligned_cast hal
-      have := structLayout_eq p (al.map Int.toNat) (specMembers ms) hc.2 ih.2 (memInScope_of_regions hB hA)
+      have := structLayout_eq p (specAligned al) (specMembers ms) hc.2 ih.2 (memInScope_of_regions hB hA)
       rw [specSizeAlign_struct]
-      simp only [Ty.sizeAlign, ih.1, bind, Except.bind, hc.1, this, pure, Except.pure, SLayout.toLayout]
+      simp only [Ty.sizeAlign, ih.1, bind, Except.bind, hc.1, this, liftFail, pure, Except.pure, SLayout.toLayout]
       refine ⟨trivial, ?_⟩
-      have ha0 : 0 < (al.map Int.toNat).getD 1 := by
-        cases h' : al.map Int.toNat with
+      have ha0 : 0 < (specAligned al).getD 1 := by
+        cases h' : specAligned al with
         | none => simp
         | some n => simpa using hc.2 n h'
       exact Nat.lt_of_lt_of_le ha0 (aggAlign_ge ..)
@@ -589,12 +603,12 @@ mutual
       obtain ⟨⟨hms, hal⟩, hU, hA⟩ := h
       have ih := ms_eq ms hms
       have hc := aligned_cast hal
-      have := unionLayout_eq p (al.map Int.toNat) (specMembers ms) hc.2 ih.2 (uMemInScope_of_regions hU hA)
+      have := unionLayout_eq p (specAligned al) (specMembers ms) hc.2 ih.2 (uMemInScope_of_regions hU hA)
       rw [specSizeAlign_union]
-      simp only [Ty.sizeAlign, ih.1, bind, Except.bind, hc.1, this, pure, Except.pure, SLayout.toLayout]
+      simp only [Ty.sizeAlign, ih.1, bind, Except.bind, hc.1, this, liftFail, pure, Except.pure, SLayout.toLayout]
       refine ⟨trivial, ?_⟩
-      have ha0 : 0 < (al.map Int.toNat).getD 1 := by
-        cases h' : al.map Int.toNat with
+      have ha0 : 0 < (specAligned al).getD 1 := by
+        cases h' : specAligned al with
         | none => simp
         | some n => simpa using hc.2 n h'
       exact Nat.lt_of_lt_of_le ha0 (aggAlign_ge ..)
@@ -642,8 +656,15 @@ mutual
         · simp [h0]
         · have : ¬ ((specAligns as : Nat) : Int) = 0 := by omega
           simp [h0, this]
+      have hguard : (d.bitWidth.isSome && !ty.isInteger) = false := by
+        cases hb : d.bitWidth with
+        | none => rfl
+        | some w =>
+          rw [hb] at hbf
+          simp only [Bool.and_eq_true] at hbf
+          rw [← isBitfieldBase_eq_isInteger, hbf.1.1.1.1]; rfl
       constructor
-      · simp only [Members.toMems, iha, ih1.1, ih2.1, bind, Except.bind, pure, Except.pure, hsm,
+      · simp only [Members.toMems, iha, ih1.1, ih2.1, bind, Except.bind, hguard, Bool.false_eq_true, if_false, pure, Except.pure, hsm,
           List.map_cons, SMem.toMem, Except.ok.injEq, List.cons.injEq, and_true, Mem.mk.injEq, hal, true_and]
         cases hb : d.bitWidth with
         | none => simp
@@ -672,6 +693,77 @@ mutual
         · exact ih2.2 m hm'
 end
 
+/-! ### the outcome class of the code is the specification's -/
+
+theorem alignedAccepted_eq (al : Option Int) : alignedAccepted al = alignedOk al := by
+  cases al <;> rfl
+
+mutual
+  theorem accepted_eq_ty : ∀ (t : Ty), t.accepted = specAccepted t
+    | .prim _ => rfl
+    | .enum => rfl
+    | .ptr => rfl
+    | .arr e _ => by simp only [Ty.accepted, specAccepted]; exact accepted_eq_ty e
+    | .flex e => by simp only [Ty.accepted, specAccepted]; exact accepted_eq_ty e
+    | .struct _ al ms => by simp only [Ty.accepted, specAccepted, alignedAccepted_eq, accepted_eq_ms ms]
+    | .union _ al ms => by simp only [Ty.accepted, specAccepted, alignedAccepted_eq, accepted_eq_ms ms]
+  theorem accepted_eq_as : ∀ (as : Aligns), as.accepted = specAcceptedAs as
+    | .nil => rfl
+    | .const _ rest => by simp only [Aligns.accepted, specAcceptedAs]; exact accepted_eq_as rest
+    | .type t rest => by simp only [Aligns.accepted, specAcceptedAs, accepted_eq_ty t, accepted_eq_as rest]
+  theorem accepted_eq_ms : ∀ (ms : Members), ms.accepted = specAcceptedMs ms
+    | .nil => rfl
+    | .cons d as ty rest => by
+      simp only [Members.accepted, specAcceptedMs, accepted_eq_as as, accepted_eq_ty ty, accepted_eq_ms rest,
+        isBitfieldBase_eq_isInteger]
+end
+
+/-! ### well-formed descriptions are accepted (they get a layout, inside the known-finding regions too) -/
+
+mutual
+  theorem ok_accepted_ty : ∀ (r : Bool) (t : Ty), t.ok r = true → t.accepted = true
+    | _, .prim _, _ => rfl
+    | _, .enum, _ => rfl
+    | _, .ptr, _ => rfl
+    | r, .arr e n, h => by
+      simp only [Ty.ok, Bool.and_eq_true] at h
+      simp only [Ty.accepted]; exact ok_accepted_ty r e h.1
+    | r, .flex e, h => by
+      simp only [Ty.ok] at h
+      simp only [Ty.accepted]; exact ok_accepted_ty r e h
+    | r, .struct p al ms, h => by
+      simp only [Ty.ok, Bool.and_eq_true] at h
+      simp only [Ty.accepted, Bool.and_eq_true]
+      exact ⟨h.1.2, ok_accepted_ms r ms h.1.1⟩
+    | r, .union p al ms, h => by
+      simp only [Ty.ok, Bool.and_eq_true] at h
+      simp only [Ty.accepted, Bool.and_eq_true]
+      exact ⟨h.1.2, ok_accepted_ms r ms h.1.1⟩
+  theorem ok_accepted_as : ∀ (r : Bool) (as : Aligns), as.ok r = true → as.accepted = true
+    | _, .nil, _ => rfl
+    | r, .const n rest, h => by
+      simp only [Aligns.ok, Bool.and_eq_true] at h
+      simp only [Aligns.accepted]; exact ok_accepted_as r rest h.2
+    | r, .type t rest, h => by
+      simp only [Aligns.ok, Bool.and_eq_true] at h
+      simp only [Aligns.accepted, Bool.and_eq_true]
+      exact ⟨ok_accepted_ty r t h.1, ok_accepted_as r rest h.2⟩
+  theorem ok_accepted_ms : ∀ (r : Bool) (ms : Members), ms.ok r = true → ms.accepted = true
+    | _, .nil, _ => rfl
+    | r, .cons d as ty rest, h => by
+      simp only [Members.ok, Bool.and_eq_true] at h
+      obtain ⟨⟨⟨hty, hrest⟩, has⟩, hbf⟩ := h
+      simp only [Members.accepted, Bool.and_eq_true, Bool.or_eq_true]
+      refine ⟨⟨⟨ok_accepted_as r as has, ok_accepted_ty r ty hty⟩, ?_⟩, ok_accepted_ms r rest hrest⟩
+      cases hb : d.bitWidth with
+      | none => left; rfl
+      | some w =>
+        right
+        rw [hb] at hbf
+        simp only [Bool.and_eq_true] at hbf
+        rw [← isBitfieldBase_eq_isInteger]; exact hbf.1.1.1.1
+end
+
 /-- whole types: the layout the model computes for a well-formed, in-scope type description is the spec's -/
 theorem layout_eq (t : Ty) (h : t.ok true = true) : t.layout = .ok (specTy t).toLayout := by
   cases t with
@@ -680,15 +772,15 @@ theorem layout_eq (t : Ty) (h : t.ok true = true) : t.layout = .ok (specTy t).to
     obtain ⟨⟨hms, hal⟩, hB, hA⟩ := h
     have ih := ms_eq ms hms
     have hc := aligned_cast hal
-    simp only [Ty.layout, ih.1, bind, Except.bind, hc.1, specTy]
-    exact structLayout_eq p (al.map Int.toNat) (specMembers ms) hc.2 ih.2 (memInScope_of_regions hB hA)
+    simp only [Ty.layout, ih.1, bind, Except.bind, hc.1, specTy,
+      structLayout_eq p (specAligned al) (specMembers ms) hc.2 ih.2 (memInScope_of_regions hB hA), liftFail]
   | union p al ms =>
     simp only [Ty.ok, Bool.not_true, Bool.false_or, Bool.and_eq_true, Bool.not_eq_true'] at h
     obtain ⟨⟨hms, hal⟩, hU, hA⟩ := h
     have ih := ms_eq ms hms
     have hc := aligned_cast hal
-    simp only [Ty.layout, ih.1, bind, Except.bind, hc.1, specTy]
-    exact unionLayout_eq p (al.map Int.toNat) (specMembers ms) hc.2 ih.2 (uMemInScope_of_regions hU hA)
+    simp only [Ty.layout, ih.1, bind, Except.bind, hc.1, specTy,
+      unionLayout_eq p (specAligned al) (specMembers ms) hc.2 ih.2 (uMemInScope_of_regions hU hA), liftFail]
   | prim t => have := (ty_eq (.prim t) h).1; simp only [Ty.layout, this, bind, Except.bind, pure, Except.pure, specTy, SLayout.toLayout, List.map_nil]
   | enum => have := (ty_eq .enum h).1; simp only [Ty.layout, this, bind, Except.bind, pure, Except.pure, specTy, SLayout.toLayout, List.map_nil]
   | ptr => have := (ty_eq .ptr h).1; simp only [Ty.layout, this, bind, Except.bind, pure, Except.pure, specTy, SLayout.toLayout, List.map_nil]
